@@ -88,6 +88,22 @@ def check_case(a):
             p = logic.packbits(u, dt)
             if p.shape != arr.shape or p.dtype != dt or not np.array_equal(p, arr):
                 return [('packbits:inverse', f'dtype {dt}: packbits(unpackbits(a)) != a')]
+            # documented padding / truncation: fewer bits than the dtype -> signed dtypes repeat the last given bit, others pad with 0; more bits are cut
+            w = 8 * dt.itemsize
+            for nb in sorted({1, 3, w // 2, w - 1, w + 3}):
+                if nb < 1:
+                    continue
+                part = u[..., :nb] if nb <= w else np.concatenate([u, np.ones((*u.shape[:-1], nb - w), dtype=u.dtype)], axis=-1)
+                pp = logic.packbits(part, dt)
+                for idx in np.ndindex(*arr.shape):
+                    bits = [int(b) for b in part[idx]][:w]
+                    if len(bits) < w:
+                        bits = bits + [bits[-1] if dt.kind == 'i' else 0] * (w - len(bits))
+                    val = sum(b << k for k, b in enumerate(bits))
+                    if dt.kind == 'i' and val >= 1 << (w - 1):
+                        val -= 1 << w
+                    if pp.shape != arr.shape or int(pp[idx]) != val:
+                        return [('packbits:padding', f'dtype {dt}: {nb} bits {[int(b) for b in part[idx]][:12]} pack to {int(pp[idx]) if pp.shape == arr.shape else pp.shape}, documented {val}')]
             if dt == np.uint8:
                 pc = kyupy.popcount(arr)
                 want = sum(bin(int(x)).count('1') for x in arr.ravel())
